@@ -22,8 +22,8 @@ REPO = os.environ.get("VERIF_REPO", "/repo")
 SPECS = os.path.join(VERIF, "specs")
 OVERLAY = os.path.join(VERIF, "harness", "overlay")
 COMMON = os.path.join(VERIF, "harness", "common")
-REPLAYS = os.path.join(VERIF, "replays")
-EVIDENCE = os.path.join(VERIF, "evidence")
+REPLAYS = os.environ.get("VERIF_REPLAYS_DIR") or os.path.join(VERIF, "replays")
+EVIDENCE = os.environ.get("VERIF_EVIDENCE_DIR") or os.path.join(VERIF, "evidence")
 MODULE = "github.com/zeromicro/go-zero"
 
 GOENV = {
